@@ -1,3 +1,97 @@
 import VpnCloud.Model.Core
+import VpnCloud.Spec.C03
+import VpnCloud.Spec.C03Slot
+import VpnCloud.Proofs.Lemmas.CoreLemmas
+/-
+  C03 — the replay window: the per-slot state of `CryptoCore::decrypt` / `every_second` refines the
+  history-only `threshold`, and the consequences of that for replays and reordering.
+  All statements are proved as given (no hypothesis added).
+-/
 namespace VpnCloud.Proofs.C03
+
+open VpnCloud VpnCloud.Spec.C03
+open VpnCloud.Proofs.CoreLemmas
+
+/-- **window_refines**: for every admissible history of a fresh slot the window floor equals the threshold of the history -/
+theorem window_refines (key : KeyRef) (half : Bool) (start : Nat) (h : List Ev)
+    (hadm : Admissible (SlotKey.new key half start) h) :
+    (slotRun (SlotKey.new key half start) h).min = threshold h :=
+  (run_inv key half start h (admissible_bound _ h hadm)).1
+
+/-- non-vacuity: an admissible history with accepts, reordering and three ticks; floor 8 = threshold -/
+example :
+    Admissible (SlotKey.new 1 true 5) [.accept 7, .accept 3, .tick, .accept 9, .tick, .tick] ∧
+    (slotRun (SlotKey.new 1 true 5) [.accept 7, .accept 3, .tick, .accept 9, .tick]).min = 8 ∧
+    threshold [.accept 7, .accept 3, .tick, .accept 9, .tick] = 8 ∧
+    threshold [.accept 7, .accept 3, .tick, .accept 9, .tick, .tick] = 10 := by
+  decide
+
+/-- what `decrypt` does to the addressed slot on an authentic, decryptable datagram: accept iff nonce ≥ window floor, and then `slotStep (.accept nonce)` -/
+theorem decrypt_authentic (c : Core) (d : Dgram) (k : SlotKey) (p : Bytes)
+    (hlen : d.len ≥ 24) (hid : d.keyId < 4) (hk : c.slots[d.keyId]? = some k)
+    (hb : d.body = .sealed k.key (c.reconstruct d.counter) p) :
+    (k.min ≤ c.reconstruct d.counter →
+        (c.decrypt d).2 = .ok p ∧ (c.decrypt d).1 = { c with slots := c.slots.set d.keyId (slotStep k (.accept (c.reconstruct d.counter))) }) ∧
+    (c.reconstruct d.counter < k.min → (c.decrypt d).2 = .error .oldNonce ∧ (c.decrypt d).1 = c) := by
+  have h1 : ¬ d.len < Generated.EXTRA_LEN + Generated.TAG_LEN := by
+    simp only [Generated.EXTRA_LEN, Generated.TAG_LEN]; omega
+  have h2 : ¬ d.keyId ≥ Core.SLOTS := by simp only [Core.SLOTS]; omega
+  constructor
+  · intro hmin
+    have h3 : ¬ c.reconstruct d.counter < k.min := by omega
+    simp only [Core.decrypt, h1, h2, hk, hb, h3, if_false, and_self, if_true, slotStep]
+  · intro hmin
+    simp only [Core.decrypt, h1, h2, hk, hmin, if_false, if_true, and_self]
+
+/-- example core for the non-vacuity checks -/
+def exCore : Core :=
+  { slots := [{ key := 7, send := 0, min := 3 }, { key := 8, send := 0 }, { key := 8, send := 0 }, { key := 8, send := 0 }],
+    cur := 0, half := true }
+
+example :
+    (exCore.decrypt { hdr := [0, 0, 0, 0, 0, 0, 0, 5], body := .sealed 7 5 [1, 2] }).2 = .ok [1, 2] ∧
+    (exCore.decrypt { hdr := [0, 0, 0, 0, 0, 0, 0, 2], body := .sealed 7 2 [1, 2] }).2 = .error .oldNonce := by
+  decide
+
+/-- a tick is `slotStep .tick` on every slot -/
+theorem everySecond_slots (c : Core) : c.everySecond.slots = c.slots.map (fun k => slotStep k .tick) := rfl
+
+/-- the threshold never decreases as the history grows -/
+theorem threshold_mono (h : List Ev) (e : Ev) : threshold h ≤ threshold (h ++ [e]) := by
+  cases e with
+  | accept n => rw [threshold_snoc_accept]; exact Nat.le_refl _
+  | tick => rw [threshold_snoc_tick]; exact threshold_le_pending h
+
+/-- **dies_in_two_ticks**: once some n' ≥ n was accepted, n is below the threshold after two further ticks, and forever after -/
+theorem dies_in_two_ticks (h more : List Ev) (n n' : Nat) (hacc : Ev.accept n' ∈ h) (hge : n ≤ n') (h2 : 2 ≤ countTicks more) :
+    n < threshold (h ++ more) := by
+  have h3 := (top_propagates h more).2.2 h2
+  have h4 : n' < maxAcceptedSucc h := (mas_le_iff h _).1 (Nat.le_refl _) n' hacc
+  have h5 : maxAcceptedSucc h ≤ top h := by unfold top; omega
+  omega
+
+/-- non-vacuity: 5 was accepted, 4 is dead after two ticks but not after one -/
+example : 4 < threshold ([.accept 5] ++ [.tick, .accept 6, .tick]) ∧ ¬ 4 < threshold ([.accept 5] ++ [.tick, .accept 6]) := by
+  decide
+
+/-- **newest_always_accepted**: a datagram newer than everything accepted so far (and nonces are ≥ 1) is at least the threshold -/
+theorem newest_always_accepted (h : List Ev) (n : Nat) (hn : 1 ≤ n) (hnew : ∀ m, Ev.accept m ∈ h → m < n) : threshold h ≤ n := by
+  have h1 := threshold_le_pending h
+  have h2 := pending_le_top h
+  have h3 : maxAcceptedSucc h ≤ n := (mas_le_iff h n).2 hnew
+  have h4 : top h ≤ n := by unfold top; omega
+  omega
+
+/-- inside the window the order does not matter: anything at least the threshold is acceptable, whatever was accepted after the last-but-one tick -/
+theorem any_order_inside_window (h : List Ev) (n : Nat) (old : List Ev)
+    (hold : beforeLastButOneTick h = some old) (hn : 1 ≤ n) (hgt : ∀ m, Ev.accept m ∈ old → m < n) : threshold h ≤ n := by
+  have h3 : maxAcceptedSucc old ≤ n := (mas_le_iff old n).2 hgt
+  simp only [threshold, hold]
+  omega
+
+/-- non-vacuity: 4 is acceptable although 9 and 6 were accepted after the last-but-one tick -/
+example : beforeLastButOneTick [.accept 3, .tick, .accept 9, .tick, .accept 6] = some [.accept 3] ∧
+    threshold [.accept 3, .tick, .accept 9, .tick, .accept 6] ≤ 4 := by
+  decide
+
 end VpnCloud.Proofs.C03
